@@ -1,13 +1,69 @@
 /-
-Oracle ops for the `dec` family.  Owned by the slice that models it; see AGENT_GUIDE.md.
+Oracle ops for the `dec` family (C05): the resumable scanners and the refill loops.
+
+  dec strR <validate 0|1> <resumeOffset> <flags 0..3> <hex>   → "<n> <flags> <err>"
+  dec numR <resumeOffset> <state> <hex>                       → "<n> <state> <err>"
+  dec ws <hex>                                                → "<n>"
+  dec lit <lithex> <hex>                                      → "<n> <err>"
+  dec chunkS <validate> <hex chunk>+                          → "<n> <flags> <err>"   (consumeString over the chunk list)
+  dec chunkN <hex chunk>+                                     → "<n> <err>"           (consumeNumber over the chunk list)
+  dec chunkL <lithex> <hex chunk>+                            → "<n> <err>"
+  dec chunkW <hex chunk>+                                     → "<n> <err>"
+err ∈ ok | eof | char | esc | utf8
 -/
 import JsonV.Oracle.Util
+import JsonV.Model.Resume
 
 namespace JsonV.Oracle.Dec
-open JsonV JsonV.Oracle
+open JsonV JsonV.Oracle JsonV.Model.Resume
+
+def errStr : Err → String
+  | .ok => "ok"
+  | .eof => "eof"
+  | .invalidChar => "char"
+  | .invalidEscape => "esc"
+  | .invalidUTF8 => "utf8"
+
+def allBytes (args : List String) : Option (List Bytes) := args.mapM bytesOfHex
 
 def handle (op : String) (args : List String) : String :=
   match op, args with
+  | "strR", [v, res, fl, h] =>
+    match res.toNat?, fl.toNat?, bytesOfHex h with
+    | some res, some fl, some b =>
+      let r := consumeStringResumable (VFlags.ofNat fl) b res (v == "1")
+      s!"{r.1} {r.2.1.toNat} {errStr r.2.2}"
+    | _, _, _ => badArgs
+  | "numR", [res, st, h] =>
+    match res.toNat?, st.toNat?, bytesOfHex h with
+    | some res, some st, some b =>
+      let r := consumeNumberResumable b res st
+      s!"{r.1} {r.2.1} {errStr r.2.2}"
+    | _, _, _ => badArgs
+  | "ws", [h] =>
+    match bytesOfHex h with
+    | some b => s!"{consumeWhitespace b}"
+    | none => badArgs
+  | "lit", [l, h] =>
+    match bytesOfHex l, bytesOfHex h with
+    | some l, some b => let r := consumeLiteral b l; s!"{r.1} {errStr r.2}"
+    | _, _ => badArgs
+  | "chunkS", v :: hs =>
+    match allBytes hs with
+    | some (c :: cs) => let r := consumeStringChunks .none c 0 (v == "1") cs; s!"{r.1} {r.2.1.toNat} {errStr r.2.2}"
+    | _ => badArgs
+  | "chunkN", hs =>
+    match allBytes hs with
+    | some (c :: cs) => let r := consumeNumberChunks c 0 0 cs; s!"{r.1} {errStr r.2}"
+    | _ => badArgs
+  | "chunkL", l :: hs =>
+    match bytesOfHex l, allBytes hs with
+    | some l, some (c :: cs) => let r := consumeLiteralChunks c l cs; s!"{r.1} {errStr r.2}"
+    | _, _ => badArgs
+  | "chunkW", hs =>
+    match allBytes hs with
+    | some (c :: cs) => let r := consumeWhitespaceChunks c 0 cs; s!"{r.1} {errStr r.2}"
+    | _ => badArgs
   | _, _ => "ERR unimplemented"
 
 end JsonV.Oracle.Dec
